@@ -54,6 +54,25 @@ kinds of file object (spec/ArMember.tla, variable fdk; harness/fobj_c06.py): ArF
            fobj_c06.py), a buffered window into a larger container file.  The kind is part of the recorded mode
            ("shared:gzip"), so a replayed case uses the same one.  Expectations do not depend on the kind (TLC's case
            / the trace validated by TLC / io.BytesIO are the same).
+where the archive starts (spec/ArMember.tla: variable base, constant Bases; negative control TellOffsets = FALSE violates IndexExact,
+           every run).  ArFile(fileobj=f) reads from the CURRENT position of f, so ar data embedded behind a prefix is handed
+           over as a file object positioned at P > 0 (the unchanged code copes: member offsets are fp.tell() values).  In the
+           domain: the statement is about every archive read through "one shared file object" and nothing says the archive
+           is the whole stream.  TLC's index cases carry base (0 / odd / even number of prefix cells) per (mode, fdk): 13
+           opening forms, all replayed (check_index reads every member completely); every third shared session of ALL other
+           legs is "shared:<kind>@<P>[+f..]": the kind presents prefix_bytes(P) + archive (a decoy archive cut to P bytes;
+           P over 1, 2, 7, 8, 15, 60, 61, 68, 512, 513, 4096, 8191, 8192, 65537) and is seeked to P before ArFile sees it.
+           Expectations are unchanged (TLC's case / validated trace / io.BytesIO).  By name the archive is the file: no prefix.
+results belong to the caller (spec: ANames / ACallerEdits of ArMemberRef, GetNames / CallerEdits + NamesExact of ArMember, TNames /
+           TEdit of TraceArMember; negative control FreshLists = FALSE violates NamesExact, every run).  Every list the API
+           hands out is EDITED IN PLACE by the harness (caller_edits: sort + remove, clear, append, reverse + insert, remove +
+           extend, overwrite -- rotating) and the API is asked again: getnames() in check_index (twice) and inside every
+           recorded history ("edit" / "names" events after calls 3, 11 and at the end, validated by TLC; corrupted control
+           "names"); the lists returned by readlines() / readlines(h) / list(member) after EVERY such call of every leg (the
+           following calls are judged as always).  getmembers() / .members return the INTERNAL list on the unchanged tree
+           (`return self.__members`): editing it changes later getnames() / iteration -- a genuine divergence of this class,
+           reported to the lead; until decided a DIAGNOSTIC only (members_list_probe on an ArFile of its own, ctx.sample +
+           ctx.extra["diagnostic_getmembers_list_is_internal"]); the harness itself only ever edits a COPY of that list.
 faults of the caller's file object (notes/SIZE_STRESS.md part 5; spec: constant Faults, actions AFault / AShort / AOpenFault of
            ArMemberRef, FaultOne / FaultLines of ArMember, TFault / TShort / TOpenFault of TraceArMember).  The file object given
            to ArFile(fileobj=f) is the caller's and may fail at any step of a call.  Half of the shared sessions of every leg
@@ -89,6 +108,8 @@ objects are created through one variant and queried through others within one hi
                                    (13 kinds, see "kinds of file object" above) -- "shared:<kind>" sessions of all
                                    legs, the class of the kind chosen by TLC in the index cases; file / unbuffered file /
                                    short-read buffered reader on the path itself in the process-level leg
+  ArFile(fileobj=f), f positioned at P > 0 (prefix + archive in one file object)
+                                   index replay (TLC's base classes) + every third shared session of all legs ("@<P>")
   ArFile(fileobj=f), f non-seekable (pipe, socket), a RAW stream with short reads, mmap.mmap, a text-mode file
                                    out of domain: ArFile needs seek/tell, reads the 60-byte header with ONE read(60),
                                    calls readline(size) (mmap.readline takes no argument) and compares bytes
@@ -105,7 +126,9 @@ objects are created through one variant and queried through others within one hi
                                    errors="strict" with undecodable bytes: out of domain (raising is the codec's contract)
   getnames() getmembers() .members iter(ArFile) getmember() ArFile[name]
                                    check_index (all must agree; identity of the member objects); getmembers/.members/
-                                   iteration also rotate as the way every session obtains its members
+                                   iteration also rotate as the way every session obtains its members; getnames() is asked
+                                   again after the caller edited earlier results in place (check_index, recorded histories);
+                                   editing the list getmembers()/.members return: diagnostic (internal list, see above)
   extractfile(name | member)       check_index: must return a member of that name / None for an absent name; WHICH of
                                    several equally named members is unspecified (code comment: returns the first,
                                    unlike getmember) -- reported as an observation, not judged
@@ -161,7 +184,7 @@ from lts import LTS, skey, strip
 MANIFEST = dict(
     technique="TLA+ spec (ArMemberRef reference with io.BytesIO semantics + ArMember implementation layer over a flat cell archive) model-checked by TLC; complete reference LTS and index cases replayed on real archives through ArFile(fileobj) and ArFile(filename) with io.BytesIO as second oracle; recorded histories validated by TLC (TraceArMember)",
     text="TLC explores the closed state space of the implementation-level model of arfile.py (archive as one flat cell sequence with headers and pad bytes, index walk, per-member offset/end/cur, one shared or per-member file position) for every archive of up to 2 members with up to 3 data bytes over {newline, other} and checks in every reachable state / on every transition that it refines independent BytesIO-like files (same cells returned, same positions), that no cell outside the member is returned and that the member table is exact, i.e. for interleaved histories of any length over that alphabet. The binding is two-way: every transition of the reference LTS, random interleaved walks and the emitted index cases (duplicate names, empty/odd/even sizes, 0 members) are replayed on real archives in both opening modes with all members' tell() compared after each call, and random histories on larger archives (5 members, 64 bytes, archives written by GNU ar) are validated by TLC against the same actions. A process-level model (ArMemberProc: path contents, ArFile objects, rewrite of a path in place or by rename, close) is model-checked and its complete LTS replayed on real files, and all by-name legs re-use a handful of path names with earlier archives' members left unclosed, so that what an archive opened by name returns cannot silently depend on what the process opened under that name before.",
-    note="Small-scope: model archives have <= 2 members x <= 3 cells (index: <= 3 members); concretization of cells to bytes (1-5 bytes per cell, arbitrary non-newline bytes) is sampled. Domain D4: read(0) excluded, non-negative seek targets, readlines(h>=1) advisory (any complete-line result reaching the hint or the end); seek()'s return value is not compared. list(member)/for-loops must yield every remaining line (the single-line generator found by this check was repaired in 225a5e1; the old behaviour is a spec-level negative control and a history mutant). Member sizes beyond 257 bytes are judged through K-scaled TLC cases and io.BytesIO, not scanned by TLC. Trusted: TLC, the harness' ar writer, io.BytesIO. Members of an archive whose file was replaced underneath them are unspecified (executed, not judged). The shared file object rotates over every kind ArFile(fileobj=) accepts (in-memory, buffered / unbuffered / short-read real files, gzip/bz2/lzma wrappers, spooled files, tar and zip members, a window into a container); the model's variable fdk (what the descriptor underneath says) is part of every emitted index case. zipfile.ZipExtFile only for archives <= 500 bytes (its readline(limit) overshoots in CPython 3.12). Faults of the caller's file object (an exception at a chosen step of ArFile() or of a member call, a short delivery during a member call) are ordinary steps of the histories of all shared legs: the specification's AFault / AShort say what the failed call may leave behind, everything after it is judged like any other call. Spec-level negative controls (ClampReadline/PadOdd/SeekFirst/CommitAfterRead = FALSE, SharedHandlePerPath = TRUE, TrustFd = TRUE) and corrupted control traces are required to fail in every run.",
+    note="Small-scope: model archives have <= 2 members x <= 3 cells (index: <= 3 members); concretization of cells to bytes (1-5 bytes per cell, arbitrary non-newline bytes) is sampled. Domain D4: read(0) excluded, non-negative seek targets, readlines(h>=1) advisory (any complete-line result reaching the hint or the end); seek()'s return value is not compared. list(member)/for-loops must yield every remaining line (the single-line generator found by this check was repaired in 225a5e1; the old behaviour is a spec-level negative control and a history mutant). Member sizes beyond 257 bytes are judged through K-scaled TLC cases and io.BytesIO, not scanned by TLC. Trusted: TLC, the harness' ar writer, io.BytesIO. Members of an archive whose file was replaced underneath them are unspecified (executed, not judged). The shared file object rotates over every kind ArFile(fileobj=) accepts (in-memory, buffered / unbuffered / short-read real files, gzip/bz2/lzma wrappers, spooled files, tar and zip members, a window into a container); the model's variable fdk (what the descriptor underneath says) is part of every emitted index case. zipfile.ZipExtFile only for archives <= 500 bytes (its readline(limit) overshoots in CPython 3.12). Faults of the caller's file object (an exception at a chosen step of ArFile() or of a member call, a short delivery during a member call) are ordinary steps of the histories of all shared legs: the specification's AFault / AShort say what the failed call may leave behind, everything after it is judged like any other call. Spec-level negative controls (ClampReadline/PadOdd/SeekFirst/CommitAfterRead = FALSE, SharedHandlePerPath = TRUE, TrustFd = TRUE) and corrupted control traces are required to fail in every run. Round 7: the archive need not start at byte 0 of the caller's file object (model variable base; TLC's index cases per base class 0/odd/even; every third shared session of all legs hands ArFile a file object of the rotating kind positioned behind a 1..65537-byte prefix; negative control TellOffsets = FALSE), and results belong to the caller (ANames/ACallerEdits; every list handed out by getnames()/readlines()/list(member) is edited in place by the harness and the API asked again; negative control FreshLists = FALSE). Editing the list returned by getmembers()/.members (the internal list on the unchanged tree) is a reported divergence executed as a diagnostic only.",
     design="5 (C06)")
 
 AR_BIN = "/usr/bin/ar"
@@ -318,11 +341,14 @@ class Arch:
     def drop(self):
         pass                         # pool paths are re-used on purpose; ctx.work is removed at exit
 
-    def forms(self, ctx):
-        """the files holding this archive for the various kinds of file object (harness/fobj_c06.py)"""
+    def forms(self, ctx, base=0):
+        """the files holding this archive (behind a prefix of `base` bytes) for the various kinds of file object
+        (harness/fobj_c06.py)"""
         if getattr(self, "_forms", None) is None:
-            self._forms = fobj.Forms(ctx, self.blob)
-        return self._forms
+            self._forms = {}
+        if base not in self._forms:
+            self._forms[base] = fobj.Forms(ctx, fobj.prefix_bytes(base) + self.blob)
+        return self._forms[base]
 
     def to_json(self):
         j = {"blob": self.blob, "style": self.style, "members": [dict(m) for m in self.members],
@@ -391,7 +417,10 @@ def do_call(f, op, args, via=0):
     if op in LIST_OPS:
         if not isinstance(v, list) or not all(isinstance(x, bytes) for x in v):
             return {"ret": [], "n": 0, "exc": "returned-" + type(v).__name__}
-        return {"ret": list(v), "n": 0, "exc": ""}
+        out = {"ret": list(v), "n": 0, "exc": ""}
+        if not isinstance(f, io.BytesIO):
+            caller_edits(v)          # the list readlines() / list(member) handed out is the caller's: edited in place after
+        return out                   # every such call of every leg (ACallerEdits); later calls are judged as always
     if op == "tell":
         if not isinstance(v, int):
             return {"ret": [], "n": 0, "exc": "returned-" + type(v).__name__}
@@ -496,6 +525,10 @@ class Session:
         mode, _, kind = mode.partition(":")
         kind, fsep, fl = kind.partition("+f")      # "+f<j>": the file object is the harness' FaultProxy; j >= 1: ArFile() itself
         self.mode = mode                           # is first called with a fault at step j of the index walk
+        kind, _, pre = kind.partition("@")         # "@<P>": the file object holds P prefix bytes + the archive and is handed
+        self.base = int(pre or 0)                  # to ArFile positioned at P (spec: variable base)
+        if self.base and mode != "shared":
+            raise core.MachineryError("a prefix needs a caller-supplied file object: %r" % (mode,))
         self.kind = kind
         self.proxy = None
         self.open_fault = None
@@ -508,12 +541,18 @@ class Session:
             self.kind = kind = kind or ("bytesio" if mode == "shared" else "file")
             if mode == "fileobj" and kind not in fobj.PATH_BACKED:
                 raise core.MachineryError("file-object kind %r does not read a path" % (kind,))
-            fo, self.closers = fobj.open_kind(ctx, arch.forms(ctx), kind,
+            fo, self.closers = fobj.open_kind(ctx, arch.forms(ctx, self.base), kind,
                                               path=(path or arch.file(ctx)) if mode == "fileobj" else None)
+            if self.base:
+                fo.seek(self.base)
+                if fo.tell() != self.base:
+                    raise core.MachineryError("file object of kind %r not positioned at %d" % (kind, self.base))
+            if mode == "shared":
+                count(ctx, "file_object_handed_over_at", "0" if not self.base else "odd offset" if self.base % 2 else "even offset")
             kinds = ctx.extra.setdefault("file_object_kinds", {})
             kinds[kind] = kinds.get(kind, 0) + 1
             rel = ctx.extra.setdefault("file_object_descriptor_vs_stream", {})
-            r = fobj.fd_relation(fo, len(arch.blob))
+            r = fobj.fd_relation(fo, len(arch.blob) + self.base)
             rel[r] = rel.get(r, 0) + 1
             if fsep:
                 fo = self.proxy = fobj.FaultProxy(fo)
@@ -558,7 +597,7 @@ class Session:
                           % (fired[1], fired[3], fired[2], type(err).__name__, err))
             return None
         self.open_fault = "injected"
-        fo.seek(0)
+        fo.seek(self.base)
         return open_arfile(arch, "shared", None, fo, n + 1)
 
     def close(self):
@@ -738,18 +777,31 @@ class Session:
 _sparse = [0]
 
 
-def pick_mode(i, arch, fd=None, sparse=False, flaky=False):
+def pick_mode(i, arch, fd=None, sparse=False, flaky=False, prefix=True):
     """opening mode of the i-th case over `arch`: by name for odd i, else through a shared file object whose
     KIND rotates over everything ArFile(fileobj=...) accepts (fd: the class the specification's case names).
     The resolved string is what a recorded case stores, so a replayed case uses the same kind.
     sparse (the bulk replay of all LTS transitions): two of three shared sessions use io.BytesIO."""
     if i % 2:
         return "byname"
+    pre = prefix_suffix() if prefix else ""      # (prefix=False: the aligned leg places offsets of the archive FILE on block boundaries)
     if sparse:
         _sparse[0] += 1
         if _sparse[0] % 3:
-            return "shared:bytesio" + flaky_suffix()
-    return "shared:" + fobj.pick_kind(len(arch.blob), fd) + (flaky_suffix() or ("+f" if flaky else ""))
+            return "shared:bytesio" + pre + flaky_suffix()
+    return "shared:" + fobj.pick_kind(len(arch.blob) + int(pre[1:] or 0), fd) + pre + (flaky_suffix() or ("+f" if flaky else ""))
+
+
+_prefix = [0]
+
+
+def prefix_suffix():
+    """every third shared session hands ArFile a file object that holds a prefix in front of the archive and is positioned
+    behind it ("@<P>", P rotating over odd / even / block-sized lengths): the archive need not start at byte 0 of f"""
+    _prefix[0] += 1
+    if _prefix[0] % 3:
+        return ""
+    return "@%d" % fobj.PREFIX_ROT[(_prefix[0] // 3) % len(fobj.PREFIX_ROT)]
 
 
 _flaky = [0]
@@ -896,6 +948,63 @@ class Conc:
 
 # ------------------------------------------------------------------ index
 
+_edit = [0]
+
+
+def caller_edits(lst):
+    """what ordinary callers do to a list they were handed: an in-place edit, rotating; returns its name"""
+    _edit[0] += 1
+    k = _edit[0] % 6
+    junk = "edited-by-the-caller" if not lst or isinstance(lst[0], str) else b"edited by the caller\n"
+    if k == 0:
+        lst.sort()
+        del lst[-1:]
+        return "sort + remove the last"
+    if k == 1:
+        del lst[:]
+        return "clear"
+    if k == 2:
+        lst.append(junk)
+        return "append"
+    if k == 3:
+        lst.reverse()
+        lst.insert(0, junk)
+        return "reverse + insert"
+    if k == 4:
+        del lst[:1]
+        lst.extend([junk, junk])
+        return "remove the first + extend"
+    lst[:] = [junk] * (len(lst) + 1)
+    return "overwrite every entry"
+
+
+def members_list_probe(ctx, arch, mode):
+    """getmembers() / .members hand out the INTERNAL list of the ArFile (lib/debian/arfile.py: `return self.__members`): a
+    caller that edits it changes what getnames() / iteration report afterwards, ON THE UNCHANGED TREE.  Reported to the
+    lead as a divergence of the same class as the memoised getnames() list; until decided it is a DIAGNOSTIC: executed on
+    an ArFile object of its own, recorded in the evidence, never a verdict."""
+    s = Session(ctx, arch, mode)
+    try:
+        if s.ar is None or s.error or not arch.members:
+            return
+        try:
+            lst = s.ar.getmembers() if Session.count % 2 else s.ar.members
+            del lst[:1]
+            got = s.ar.getnames()
+        except Exception as e:
+            got = "EXC:" + type(e).__name__
+        want = [m["name"] for m in arch.members]
+        d = ctx.extra.setdefault("diagnostic_getmembers_list_is_internal", {"probes": 0, "later_getnames_changed": 0})
+        d["probes"] += 1
+        if got != want:
+            d["later_getnames_changed"] += 1
+            if "example" not in d:
+                d["example"] = "ArFile over members %s: del ar.getmembers()[:1]; ar.getnames() -> %s" % (short(want, 120), short(got, 120))
+                ctx.sample("DIAGNOSTIC (reported, not judged): getmembers()/.members return the internal list; " + d["example"])
+    finally:
+        s.close()
+
+
 def check_index(ctx, arch, mode, exp):
     """exp = TLC's index mapped to the real archive: {"members": [{id}], "last": [...]} (1-based
     positions in arch.members). Returns None or a message (verdict observables only).
@@ -913,6 +1022,16 @@ def check_index(ctx, arch, mode, exp):
             exp_names = [arch.members[x["id"] - 1]["name"] for x in exp["members"]]
             if names != exp_names:
                 return "getnames() = %s, the specification lists %s" % (short(names, 200), short(exp_names, 200))
+            # results belong to the caller (ACallerEdits of the reference: no action of the archive): the list handed out
+            # is edited in place -- sorted / emptied / extended / filtered, rotating -- and getnames() is asked again, here
+            # and once more behind all the other queries below
+            edits = caller_edits(names)
+            again = ar.getnames()
+            if again != exp_names:
+                return ("getnames() = %s after the caller edited the list an earlier getnames() call had returned (%s); the "
+                        "specification lists %s" % (short(again, 200), edits, short(exp_names, 200)))
+            caller_edits(again)
+            count(ctx, "results_edited_by_the_caller", "getnames(): " + edits)
             if len(members) != len(exp_names) or [m.name for m in members] != exp_names:
                 return "getmembers() names %s, the specification lists %s" % (short([m.name for m in members], 200), short(exp_names, 200))
             if [m.name for m in ar] != exp_names or [id(m) for m in ar] != [id(m) for m in members]:
@@ -949,6 +1068,11 @@ def check_index(ctx, arch, mode, exp):
                         return "extractfile(%r) returned %r, not a member named %r" % (arg, getattr(x, "name", x), nm)
             if ar.extractfile("no/such member") is not None:
                 return "extractfile() of an absent name returned a member"
+            third = ar.getnames()
+            if third != exp_names or [m.name for m in ar.getmembers()] != exp_names:
+                return ("getnames() = %s / getmembers() names %s after the caller edited the lists of earlier getnames() calls; the "
+                        "specification lists %s" % (short(third, 200), short([getattr(m, "name", m) for m in ar.getmembers()], 200),
+                                                    short(exp_names, 200)))
             # exactness of the offsets found by the index walk: whole content of every member
             for k in range(len(members)):
                 got = members[k].read()
@@ -1088,6 +1212,29 @@ def record(ctx, arch, mode, calls=None, rng=None, n=0, big=False, log=True, pre=
         if s.open_fault is not None:
             events.append({"op": "openfault", "exc": s.open_fault})
         events.append(ev)
+        held = []
+
+        def names_again():
+            """the caller edits in place every list getnames() handed out so far ("edit": no action of the archive) and asks
+            again ("names"): TLC's ANames says what the answer is"""
+            e = {"op": "names", "m": 0, "args": [], "ret": [], "names": [], "exc": ""}
+            try:
+                what = [caller_edits(x) for x in held]
+                got = s.ar.getnames()
+                e["names"] = [name_hex(x) for x in got]
+                held.append(got)
+                held[:] = held[-2:]
+            except Exception as x:
+                e["exc"] = type(x).__name__
+            events.append({"op": "edit", "m": 0, "args": what if not e["exc"] else [], "ret": []})
+            events.append(e)
+            if not e["exc"]:
+                count(ctx, "results_edited_by_the_caller", "getnames() within a recorded history")
+
+        if s.ar is not None and not ev["exc"]:
+            held.append(names)
+            if not s.datas:
+                names_again()
         if not s.error and s.datas:
             k = 0
             retry = None
@@ -1136,6 +1283,8 @@ def record(ctx, arch, mode, calls=None, rng=None, n=0, big=False, log=True, pre=
                     plan = calls[k][3] if len(calls[k]) > 3 else None
                 k += 1
                 retry = None
+                if log and k in (3, 11):
+                    names_again()
                 if op == "seek" and args[1] == 1 and s.oracles[m].tell() + args[0] < 0:
                     continue            # a recorded relative seek that would leave the domain on this tree
                 if s.proxy is None:
@@ -1165,6 +1314,8 @@ def record(ctx, arch, mode, calls=None, rng=None, n=0, big=False, log=True, pre=
                     events.append({"op": op, "m": m + 1, "args": list(args), "ret": [list(c) for c in obs["ret"]],
                                    "n": obs["n"], "tell": t if isinstance(t, int) else -1,
                                    "exc": obs["exc"] or ("" if isinstance(t, int) else str(t))})
+            if log:
+                names_again()
     finally:
         s.finish(ctx)
     return {"mem": spec_mem, "events": events}, oracle_msg, made
@@ -1176,7 +1327,13 @@ def corrupt(t, how):
     t = copy.deepcopy(t)
     ev = t["events"]
     op0 = [e for e in ev if e["op"] == "open"][0]
-    cev = [e for e in ev if e["op"] not in ("open", "openfault")]
+    cev = [e for e in ev if e["op"] not in ("open", "openfault", "names", "edit")]
+    if how == "names":               # a later getnames() that lost / reordered a name (what an edited, memoised list gives)
+        for e in ev:
+            if e["op"] == "names" and len(e["names"]) >= 1:
+                e["names"] = sorted(e["names"])[:-1] if len(e["names"]) > 1 else e["names"] + e["names"]
+                return t
+        return None
     if how == "last":
         if op0["last"]:
             op0["last"][0] = 0
@@ -1231,7 +1388,7 @@ def corrupt(t, how):
     return None
 
 
-CONTROL_KINDS = ("last", "size", "byte", "tell", "dropread", "faultmove", "faultother", "shortskip", "openfault")
+CONTROL_KINDS = ("last", "size", "byte", "tell", "dropread", "faultmove", "faultother", "shortskip", "openfault", "names")
 
 
 def trace_cfg(ctx):
@@ -1296,8 +1453,9 @@ def trace_leg(ctx, jobs, label, rng):
         t = traces[i - 1]
         at = info.get(i, 0)
         ev = t["events"][at] if at < len(t["events"]) else None
-        if ev is None or ev["op"] in ("open", "openfault"):
-            what = "ArFile listing %s" % short(ev, 600)
+        if ev is None or ev["op"] in ("open", "openfault", "names", "edit"):
+            what = "ArFile listing %s%s" % ("(getnames() after the caller edited the lists of earlier calls) " if ev and ev["op"] == "names" else "",
+                                            short(ev, 600))
         elif ev["op"] in ("fault", "short"):
             what = "member[%d].%s%s hit by a fault of the file object -> %s" % (ev["m"] - 1, ev["args"][0], tuple(ev["args"][1:]), short(ev, 400))
         else:
@@ -1494,7 +1652,7 @@ def aligned_leg(ctx, rng, quick):
                         pre.append((m, "readline", []))
                 if x >= 1:                               # reads that END at the boundary
                     pre += [(m, "seek", [max(0, x - 3), 0]), (m, "readn", [min(3, x)]), (m, "readline", [])]
-        mode = "byname" if i % 4 == 3 else pick_mode(0, arch, flaky=i % 8 != 0)
+        mode = "byname" if i % 4 == 3 else pick_mode(0, arch, flaky=i % 8 != 0, prefix=False)
         _, omsg, calls = record(ctx, arch, mode, rng=rng, n=12, big=True, log=False, pre=pre, marks=marks)
         done[what] = done.get(what, 0) + 1
         ctx.case_seen(("aligned", T, what), True)
@@ -1783,6 +1941,11 @@ def run(ctx):
             # a position committed BEFORE the underlying read succeeded: a call that fails inside the caller's file
             # object leaves the member somewhere else although nothing was returned
             negative_control(ctx, "MC_ArMember_quick.cfg", "CommitAfterRead", ("Refines",))
+            # member offsets from a running count that takes the global header for byte 0 of the caller's file object:
+            # every data window is shifted as soon as the archive is handed over behind a prefix
+            negative_control(ctx, "MC_ArMember_index.cfg", "TellOffsets", ("IndexExact",))
+            # getnames() handing out one memoised list: a caller's in-place edit changes every later answer
+            negative_control(ctx, "MC_ArMember_quick_byname.cfg", "FreshLists", ("NamesExact",))
             if not quick:
                 negative_control(ctx, "MC_ArMember_quick.cfg", "PadOdd", ("IndexExact",))
                 negative_control(ctx, "MC_ArMember_quick.cfg", "SeekFirst", ("Refines", "SameResult", "Isolation"))
@@ -1877,8 +2040,9 @@ def run_binding(ctx, quick, rng):
     # how the archive is handed to ArFile is part of TLC's case: (mode, what is underneath the shared file object)
     combos = {}
     for c in r_idx.printed.get("IOPEN", []):
-        combos.setdefault(skey(c["a"]), set()).add((c["mode"], c["fd"]))
-    want_combos = sorted([("byname", "same")] + [("shared", k) for k in ("none", "same", "less", "more")])
+        combos.setdefault(skey(c["a"]), set()).add((c["mode"], c["fd"], c["base"]))
+    # (base: where the archive starts in the caller's file object -- 0 / an odd / an even number of prefix cells)
+    want_combos = sorted([("byname", "same", 0)] + [("shared", k, b) for k in ("none", "same", "less", "more") for b in (0, 1, 2)])
     if any(sorted(combos.get(skey(c["a"]), ())) != want_combos for c in idx_cases):
         raise core.MachineryError("IOPEN lines of the index configuration incomplete: %r" % (sorted(combos.values(), key=sorted)[:2],))
     per_fd = ctx.extra.setdefault("index_replays_per_opening_form", {})
@@ -1913,25 +2077,30 @@ def run_binding(ctx, quick, rng):
             conc = Conc(rng, [m["data"] for m in c["a"]], canonical, names=[names_of[m["name"]] for m in c["a"]],
                         repeat=repeat, encoding=encoding, errors=errors)
             exp = conc.index_exp(c["idx"])
-            cmode, cfd = want_combos[(ci * (2 if quick else 6) + j) % len(want_combos)]
+            cmode, cfd, cbase = want_combos[(ci * (2 if quick else 6) + j) % len(want_combos)]
             if cmode == "byname":
                 mode = "byname"
             else:
-                kind, measured = fobj.pick_kind_for(conc.arch.forms(ctx), cfd)
-                mode = "shared:" + kind
+                pre = 0 if not cbase else fobj.PREFIXES[cbase][(ci + j) % len(fobj.PREFIXES[cbase])]
+                if pre > 70000 and quick:
+                    pre = fobj.PREFIXES[cbase][0]
+                kind, measured = fobj.pick_kind_for(conc.arch.forms(ctx, pre), cfd)
+                mode = "shared:" + kind + ("@%d" % pre if pre else "")
                 if (ci + j) % 2:          # ArFile(fileobj=f) first fails at step 1..8 of the index walk, then is repeated
                     mode += "+f%d" % (1 + (ci // 2 + j) % 8)
                 if measured is not None and measured != cfd:      # a tiny archive does not shrink
                     ctx.extra["index_replays_descriptor_class_not_concretizable"] = \
                         ctx.extra.get("index_replays_descriptor_class_not_concretizable", 0) + 1
-            per_fd[cmode + "/" + cfd] = per_fd.get(cmode + "/" + cfd, 0) + 1
+            per_fd["%s/%s/base %s" % (cmode, cfd, ("0", "odd", "even")[cbase])] = per_fd.get("%s/%s/base %s" % (cmode, cfd, ("0", "odd", "even")[cbase]), 0) + 1
             msg = check_index(ctx, conc.arch, mode, exp)
+            if nidx % 16 == 3 and repeat == 1:
+                members_list_probe(ctx, conc.arch, mode)
             nidx += 1
             big_counts += repeat > 1
             ctx.case_seen(("index", skey(c["a"]), j), True)
             if msg:
                 ctx.violation({"kind": "index", "arch": conc.arch.to_json(), "mode": mode, "idx": exp, "model": c,
-                               "opening_form": [cmode, cfd]},
+                               "opening_form": [cmode, cfd, cbase]},
                               "%s mode, %s-style archive (encoding=%r, errors=%r) with %d members %s: %s"
                               % (mode, conc.arch.style, encoding, errors, len(conc.arch.members),
                                  short([(m["name"], len(m["data"])) for m in conc.arch.members], 300), msg))
